@@ -10,6 +10,10 @@ import VsgModel.Engine.Outcome
 import VsgModel.Engine.RuleRun
 import VsgModel.Lex.Create
 import VsgProofs.Properties.C04
+-- >>> WP1b layer P
+import VsgProofs.Lemmas.ProgErr
+import VsgProofs.Lemmas.ProgLink
+-- <<< WP1b layer P
 namespace Vsgm.C19
 open Vsgm Vsgm.Outcome
 
@@ -115,3 +119,127 @@ example : (((run C04.demoSys 6).call 0 [.toks, .int 5, .cls 9] (initState C04.de
 
 end Vsgm.C19
 -- <<< WP1 layer P
+
+-- >>> WP1b layer P: where the exceptions of the productions can originate
+namespace Vsgm.C19
+open Vsgm.Prog
+
+/-- **no `raise`, no ClassifyError**: if no function of the table contains a `raise` statement, no call — any fuel,
+    function, arguments, state — ends in ClassifyError -/
+theorem prog_no_classifyError (S : Sys) (htab : ∀ fd ∈ S.funs.toList, fd.ok Chk.noRaise = true)
+    (n f : Nat) (args : List Val) (st : State) : ((run S n).call f args st).1 ≠ .error (.py .classifyError) :=
+  call_no_classifyError S htab n f args st
+
+/-- **no subscript, no IndexError**: if no function of the table contains a subscript read `l[i]`, a subscript
+    store, a fused store or a `pop`, no call ends in IndexError (slices, `enumerate(l[i::])`, `for … in range` clamp
+    and cannot raise it) -/
+theorem prog_no_indexError (S : Sys) (htab : ∀ fd ∈ S.funs.toList, fd.ok Chk.noIndex = true)
+    (n f : Nat) (args : List Val) (st : State) : ((run S n).call f args st).1 ≠ .error (.py .indexError) :=
+  call_no_indexError S htab n f args st
+
+/-- the general form: whatever predicate `A` admits the ambient outcomes, admits IndexError where the checker admits a
+    subscript / fused store / `pop`, and admits ClassifyError where it admits `raise`, holds of every exception a call
+    can end in -/
+theorem prog_error_origin (S : Sys) (A : Err → Prop) (C : Chk) (hS : ErrSound A C)
+    (htab : ∀ fd ∈ S.funs.toList, fd.ok C = true) (n f : Nat) (args : List Val) (st : State) (e : Err)
+    (h : ((run S n).call f args st).1 = .error e) : A e :=
+  (err_run hS htab n).call f args st e h
+
+/-- the functions of the GENERATED table that contain a subscript read / store, a fused store or a `pop`, by name: an
+    IndexError of the productions can only be raised while one of them is on the stack (82 of 549; the other 467
+    cannot originate one) -/
+def progIndexSites : List String :=
+  ["utils.assign_tokens_until_ignoring_paren", "utils.assign_next_token", "utils.assign_token",
+   "utils.assign_next_token_if", "utils.assign_next_token_if_not", "utils.assign_next_token_if_not_one_of",
+   "utils.assign_next_token_required", "utils.assign_tokens_until_matching_closing_paren",
+   "utils.object_value_is", "utils.object_value_matches", "utils.is_item", "utils.get_range",
+   "utils.are_next_consecutive_tokens", "utils.are_next_consecutive_token_types",
+   "utils.are_next_consecutive_tokens_ignoring_whitespace",
+   "utils.are_next_consecutive_token_types_ignoring_whitespace",
+   "utils.are_previous_consecutive_token_types_ignoring_whitespace", "utils.find_earliest_occurrence",
+   "utils.find_earliest_occurrence_not_in_paren", "utils.find_next_non_whitespace_token",
+   "utils.find_previous_non_whitespace_token", "utils.print_debug", "utils.print_next_token",
+   "utils.print_token", "utils.print_line", "utils.is_next_token_one_of", "utils.calculate_line_number",
+   "utils.calculate_column", "utils.print_error_message", "utils.extract_module_name",
+   "utils.is_next_token_in_list", "utils.remove_consecutive_whitespace_tokens",
+   "utils.remove_comment_at_end_of_token_list", "utils.remove_trailing_whitespace",
+   "utils.remove_trailing_whitespace_and_comments", "utils.remove_leading_whitespace_and_comments",
+   "utils.remove_all_trailing_whitespace", "utils.find_carriage_return", "utils.does_token_start_line",
+   "utils.fix_blank_lines", "utils.fix_trailing_whitespace", "utils.assign_special_tokens",
+   "utils.exponent_detected", "utils.classify_predefined_types", "utils.extract_line_with_token_index_of",
+   "classify.architecture_statement_part.classify_until", "classify.case_generate_statement.detect",
+   "classify.comment.ending_token_exists", "classify.comment.ending_token_should_exist",
+   "classify.comment.replace_token_with_ending_token", "classify.comment.remove_last_star_from_previous_token",
+   "classify.comment.classify_delimited_comment_open_keyword",
+   "classify.concurrent_conditional_signal_assignment.detect", "classify.discrete_range.classify_until",
+   "classify.expression.classify_until", "classify.for_generate_statement.detect",
+   "classify.if_generate_statement.detect", "classify.instantiated_unit.classify_entity_name",
+   "classify.logical_name_list.classify_until", "classify.name.classify_until",
+   "classify.pragma.set_tokens_to_ignore", "classify.pragma.inside_vhdloff_vhdlon_region",
+   "classify.pragma.check_for_open_pragmas", "classify.pragma.first_token_is_a_comment",
+   "classify.pragma.second_token_is_a_comment", "classify.pragma.classify_open_pragmas",
+   "classify.pragma.classify_close_pragmas", "classify.pragma.classify_single_pragmas",
+   "classify.pragma.classify_pragma", "classify.preprocessor.classify", "classify.procedure_call.detect",
+   "classify.procedure_call_statement.detect", "classify.range.check_for_todo_token",
+   "classify.sensitivity_list.classify_until", "classify.utils.classify_selected_name",
+   "classify.utils.build_use_clause_selected_name_token_list",
+   "classify.utils.build_context_reference_selected_name_token_list",
+   "classify.utils.classify_use_clause_selected_name_elements",
+   "classify.utils.classify_context_reference_selected_name_elements",
+   "classify.utils.replace_item_in_list_with_a_list_at_index", "classify.whitespace.is_string_literal",
+   "classify.whitespace.is_character_literal"]
+
+theorem progTable_index_sites : failingNames Chk.noIndex Gen.Prog.progTable = progIndexSites := by decide +kernel
+
+theorem progTable_masked_noIndex :
+    (maskNames progIndexSites Gen.Prog.progTable).all (fun fd => fd.ok Chk.noIndex) = true := by decide +kernel
+
+def progRaiseSites : List String := ["utils.print_error_message", "utils.print_missing_error_message"]
+
+theorem progTable_masked_noRaise :
+    (maskNames progRaiseSites Gen.Prog.progTable).all (fun fd => fd.ok Chk.noRaise) = true := by decide +kernel
+
+/-- **every ClassifyError of the generated productions comes out of `print_error_message` /
+    `print_missing_error_message`**: a call on the full generated table that the table with these two functions
+    opaque reproduces (i.e. that never calls them) does not end in ClassifyError -/
+theorem prog_classifyError_origin (S : Sys) (hS : S.funs = (Gen.Prog.progTable.map (·.2)).toArray)
+    (n f : Nat) (args : List Val) (st : State)
+    (h : ((run { S with funs := (maskNames progRaiseSites Gen.Prog.progTable).toArray } n).call f args st).1
+      ≠ .error .unmodelled) :
+    ((run S n).call f args st).1 ≠ .error (.py .classifyError) := by
+  rw [call_link S _ (masked_maskNames S progRaiseSites Gen.Prog.progTable hS) n f args st h]
+  apply call_no_classifyError
+  intro fd hfd
+  have := progTable_masked_noRaise
+  rw [List.all_eq_true] at this
+  exact this fd (by simpa using hfd)
+
+/-- **every IndexError of the generated productions originates in one of the 82 functions of `progIndexSites`** -/
+theorem prog_indexError_origin (S : Sys) (hS : S.funs = (Gen.Prog.progTable.map (·.2)).toArray)
+    (n f : Nat) (args : List Val) (st : State)
+    (h : ((run { S with funs := (maskNames progIndexSites Gen.Prog.progTable).toArray } n).call f args st).1
+      ≠ .error .unmodelled) :
+    ((run S n).call f args st).1 ≠ .error (.py .indexError) := by
+  rw [call_link S _ (masked_maskNames S progIndexSites Gen.Prog.progTable hS) n f args st h]
+  apply call_no_indexError
+  intro fd hfd
+  have := progTable_masked_noIndex
+  rw [List.all_eq_true] at this
+  exact this fd (by simpa using hfd)
+
+/-- non-vacuity: a function without subscripts (`return x + 1`) passes `Chk.noIndex` and `Chk.noRaise`; the store of
+    `assign_next_token` does not pass `Chk.noIndex` — and does end in IndexError (example in C04) -/
+def plusOne : FunDef := { nparams := 1, nlocals := 1, body := [.ret (.binop .add (.var 0) (.int 1))] }
+
+example : plusOne.ok Chk.noIndex = true ∧ plusOne.ok Chk.noRaise = true ∧ C04.demoFun.ok Chk.noIndex = false := by
+  decide +kernel
+
+example : ∀ fd ∈ ({ C04.demoSys with funs := #[plusOne] } : Sys).funs.toList, fd.ok Chk.noIndex = true := by
+  decide +kernel
+
+/-- `None + 1` is TypeError — an ambient outcome no syntactic condition of these theorems excludes -/
+example : (match ((run { C04.demoSys with funs := #[plusOne] } 6).call 0 [.none] (initState C04.demoSys C04.demoToks)).1 with
+    | .error e => some e | .ok _ => none) = some (.py .typeError) := by decide +kernel
+
+end Vsgm.C19
+-- <<< WP1b layer P
